@@ -46,7 +46,7 @@ class C18(Check):
     ASSUMPTIONS = ['invariants are judged after each operation, when client and driver are idle (the poll thread may be '
                    'running: struct/member agreement is read under the module\'s access lock)',
                    'closest allowed value: ties may go either way']
-    PROBES = ('c18.struct-op', 'c18.subscriber-churn', 'c18.floatenum-op', 'c18.limit-op', 'c18.inverted-limits', 'c18.control-op',
+    PROBES = ('c18.struct-op', 'c18.value-written-during-limit-change', 'c18.subscriber-churn', 'c18.floatenum-op', 'c18.limit-op', 'c18.inverted-limits', 'c18.control-op',
               'c18.driver-op', 'c18.wire-op', 'c18.takeover', 'c18.concurrent-driver-assignment', 'fault.hw-read', 'fault.hw-write', 'c18.stale-controller-output', 'c18.second-output-op', 'c18.concurrent-takeover', 'fault.hw-switch-off')
 
     def gen_case(self, rng, tier):
@@ -104,6 +104,11 @@ class C18(Check):
                     if shape['nctl'] < 2:
                         op['kind'] = 'ctl'
             op['who'] = who
+            if op['group'] == 'limit' and op['kind'] == 'lim' and rng.random() < 0.4:
+                # the hardware takes its time to store the new limit; meanwhile a driver thread sets a new value
+                op['also'] = {'kind': 'x', 'v': rng.choice([op['v'], op['lo'] + 0.5, op['lo'] - 0.5, op['hi'] + 0.5,
+                                                            op['hi'] - 0.5])}
+                op['lim_time'] = rng.choice([0.05, 0.2])
             if op['group'] in ('struct', 'fe') and rng.random() < 0.3:
                 # at the same time a driver thread publishes a change of its own by assignment
                 op['also'] = rng.choice([{'kind': 'idx', 'i': rng.randrange(len(labels))},
@@ -170,6 +175,14 @@ class C18(Check):
         def write_x(self, value):
             hw.setdefault('xlog', []).append((value, self._limits_now()))
             return value
+
+        def write_lim(self, value):
+            if hw.get('lim_time'):
+                time.sleep(hw['lim_time'])
+            return value
+        for ln_ in ('x_min', 'x_max', 'x_limits'):
+            if ln_ in ns:
+                ns['write_' + ln_] = write_lim
 
         def _limits_now(self):
             if 'x_limits' in self.parameters:
@@ -295,13 +308,18 @@ class C18(Check):
             # float and between struct and members runs inside the update lock of the module; the generated member
             # access of a struct without combined methods is guarded by the access lock only, which a thread
             # publishing by assignment does not take
-            also_ok = (g == 'fe' and k == 'index') or (g == 'struct' and shape['struct_rw'])
+            also_ok = (g == 'fe' and k == 'index') or (g == 'struct' and shape['struct_rw']) or (g == 'limit' and k == 'lim')
+            hw['lim_time'] = op.get('lim_time')
             if op.get('also') and also_ok and not op.get('fail'):
                 def concurrent(also=op['also']):
                     sim.yield_point()
                     try:
                         if also['kind'] == 'idx':
                             mod.fe_idx = also['i']
+                        elif also['kind'] == 'x':
+                            time.sleep(0.01)
+                            sim.count('c18.value-written-during-limit-change')
+                            mod.write_x(also['v'])
                         else:
                             hw['st'][also['m']] = also['mv']
                             setattr(mod, f'st_{also["m"]}', also['mv'])
